@@ -53,12 +53,12 @@ def check(scn, H, view=None):
                 if raised:
                     st['rule_raised'] += 1
                     break
-                if len(cs) != nrules or \
-                        sorted(c['rule'] for c in cs) != list(range(nrules)):
+                active = seg.get('rules_active', list(range(nrules)))
+                if sorted(c['rule'] for c in cs) != active:
                     if k == last_k and seg['exc'] is not None and not cs:
                         break      # the run died before control at this instant
                     viol('rule-call-count', instant=k, calls=len(cs),
-                         rules=nrules)
+                         rules=len(active))
                     break
                 props = [c['p'] for c in sorted(cs, key=lambda c: c['rule'])]
                 verdict, val = rm.arbitration(props)
